@@ -105,7 +105,7 @@ class LitGet(LitBase):
                                             == lazy.cur_has(c0, self.elem, L, iv)),
             "no_pending_events": lazy.events(c1, L) == z3.Empty(lazy.SeqVal),
             "index_alive": z3.Select(c1.arr("$alive"), r),
-            "inv_region": __import__("specs.forest", fromlist=["x"]).inv_region(c1),
+            **__import__("specs.forest", fromlist=["x"]).inv_region_parts(c1),
         }
 
     def apply(self, eng, args, kwargs, st):
